@@ -27,7 +27,7 @@ def pregen(check):
 
 CFG = {
     "id": "C08",
-    "lean_modules": ["GeomV.C08.Proofs", "GeomV.C08.ProofsConic", "GeomV.C08.ProofsTmerc", "GeomV.C08.ProofsGeodetic", "GeomV.C08.ProofsKrovak", "GeomV.C08.ProofsUnique", "GeomV.C08.Ties"],
+    "lean_modules": ["GeomV.C08.Proofs", "GeomV.C08.ProofsConic", "GeomV.C08.ProofsTmerc", "GeomV.C08.ProofsGeodetic", "GeomV.C08.ProofsKrovak", "GeomV.C08.ProofsUnique", "GeomV.C08.ProofsConverge", "GeomV.C08.Ties"],
     "pregen": pregen,
     "exe": "geomv_c08",
     "go_cmd": "c08",
@@ -42,7 +42,13 @@ CFG = {
         "aea_chain", "C08_aea_inv_of_converged", "C08_tmerc_sphere_inv", "C08_geodetic_fixed", "C08_geodetic_roundtrip_h0", "C08_krovak_lat_fixed", "krovak_rotation", "C08_krovak_sphere_chain_inv",
         "logTs_strictAnti", "tsfnz_injective", "C08_phi2z_fixed_unique", "merc_chain", "C08_merc_ell_inv_exact", "C08_lcc_inv_exact",
         "mlfn_strictMono", "C08_imlfn_fixed_unique", "eqdc_chain", "C08_eqdc_inv_exact",
-        "qOf_strictMono", "C08_aeaPhi1z_fixed_unique", "C08_aea_inv_exact"]] + [
+        "qOf_strictMono", "C08_aeaPhi1z_fixed_unique", "C08_aea_inv_exact",
+        # phase 3: CONVERGENCE within the iteration caps (contraction), hence the 1e-6 degree clause over the reals
+        "genLoop_ok", "genLoop_close", "confF_lipschitz", "phi2z_contracts", "C08_phi2z_converges",
+        "C08_merc_ell_inv_within", "C08_lcc_inv_within", "tmercPhi_contracts", "C08_tmerc_footpoint_converges",
+        "imlfn_contracts", "C08_imlfn_converges", "C08_eqdc_inv_within", "krovak_contracts", "C08_krovak_lat_fixed_unique",
+        "krovakLoop_converges", "C08_krovak_lat_converges", "C08_krovak_inv_within", "logTs_sin_lipschitz",
+        "C08_merc_ell_reproject_within"]] + [
         # tie T1: model = definitions regenerated from the current Go source (rfl)
         T + "Ties." + n for n in ["tie_initMerc", "tie_fwdMerc", "tie_invMerc", "tie_initLcc", "tie_fwdLcc", "tie_invLcc",
                                   "tie_initAea", "tie_fwdAea", "tie_invAea", "tie_aeaPhi1zStep", "tie_initEqdc", "tie_fwdEqdc",
